@@ -39,7 +39,7 @@ def cli_main() -> None:
     if args.defines:
         for item in args.defines:
             key, value = item.split("=", 1)
-            program.resolver.current_scope.add_symbol(key, value)
+            program.resolver.current_scope.add_symbol(key, int(value, 0))
 
     if args.format == "ips":
         exit_code = program.assemble_as_patch(args.input_file, args.output_file, args.mapping, args.copier_header)
